@@ -2,6 +2,7 @@ SPECIFICATION Spec
 CONSTANTS
   Objs = {"o1", "o2"}
   HugeAvailable = TRUE
+  DeallocEarlyOut = FALSE
 INVARIANT NoLeak
 INVARIANT CyclesDoNotGrow
 PROPERTY FailureIsClean
